@@ -92,11 +92,23 @@ func discharge(ob *Obligation, query string, dir string, timeoutMs int, all bool
 				pt = 6000
 			}
 			pr := runSolver(solvers[0], pfile, pt)
-			if pr.verdict == "unsat" && !all {
+			if pr.verdict == "unsat" {
 				ob.Verdict = "unsat"
 				ob.Millis = pr.millis
 				ob.Solver = fmt.Sprintf("%s [kind-pruned query: %s=unsat(%dms)]", pr.solver, pr.solver, pr.millis)
 				ob.Query = pfile
+				if all {
+					// thorough tier: the other solvers must not contradict the proof
+					// (a pruned `unsat` is a proof: only hypotheses were dropped)
+					for i := 1; i <= 2; i++ {
+						cr := runSolver(solvers[i], pfile, 10000)
+						ob.Solver += fmt.Sprintf(" %s=%s(%dms)", cr.solver, cr.verdict, cr.millis)
+						if cr.verdict == "sat" {
+							ob.Verdict = "conflict"
+							ob.Model = cr.output
+						}
+					}
+				}
 				return
 			}
 			pr.solver += "/pruned"
@@ -120,11 +132,17 @@ func discharge(ob *Obligation, query string, dir string, timeoutMs int, all bool
 		if !(r.verdict == "sat" && !all) {
 			var wg sync.WaitGroup
 			rs := make([]solveResult, 2)
+			t2 := timeoutMs
+			if r.verdict == "unsat" && t2 > 10000 {
+				// cross-check of an obligation that is already discharged (thorough
+				// tier): the other solvers only have to not contradict it
+				t2 = 10000
+			}
 			for i := 1; i <= 2; i++ {
 				wg.Add(1)
 				go func(i int) {
 					defer wg.Done()
-					rs[i-1] = runSolver(solvers[i], file, timeoutMs)
+					rs[i-1] = runSolver(solvers[i], file, t2)
 				}(i)
 			}
 			wg.Wait()
